@@ -12,10 +12,13 @@ Definition expand_seg (s : seg) : bytes :=
 Definition expand (c : chunk) : bytes := concat (map expand_seg c).
 
 (* what the harness saw the real `Decoder` make of each wire chunk (identity: every chunk is [Wo]) *)
-Inductive wi := Wo (c : chunk) | Ws | Wf.
+Inductive wi := Wo (c : chunk) | Ws | Wf | Wn (n : N) (c : chunk) (* n times [Wo c] *).
 Inductive wtail := TNone | TData (c : chunk) | TFail.
 Definition wire_of (ws : list wi) (t : wtail) : wire :=
-  {| w_items := map (fun w => match w with Wo c => WOut (expand c) | Ws => WSkip | Wf => WFail end) ws;
+  {| w_items := flat_map (fun w => match w with
+                                   | Wo c => [WOut (expand c)] | Ws => [WSkip] | Wf => [WFail]
+                                   | Wn n c => repeat (WOut (expand c)) (N.to_nat n)
+                                   end) ws;
      w_tail := match t with TNone => None | TData c => Some (Data (expand c)) | TFail => Some Fail end |}.
 
 (* one multipart field as the real `Multipart` delivered it: name id, kind, T::limit(name), chunks *)
@@ -32,9 +35,9 @@ Inductive case :=
 | CFieldBytes (limit : N) (chunks : list chunk)
 | CMultipart (total memory : option N) (fields : list mfield).
 
-(* order-sensitive checksum of a byte string *)
+(* order-sensitive checksum of a byte string: sum of (position+1) * (byte+1) *)
 Definition hash (b : bytes) : N :=
-  fold_left (fun h x => (h * 31 + x + 1) mod 4294967296) b 7.
+  snd (fold_left (fun (a : N * N) x => (fst a + 1, snd a + (fst a + 1) * (x + 1))) b (0, 0)).
 
 Definition VErr (e : xerr) : V :=
   match e with
